@@ -14,6 +14,7 @@ type stageSnap struct {
 	edges       [][5]int // from ref, to ref, reversed, points, arrowHeadStart
 	layers      [][]int  // refs in slice order
 	inl, outl   [][]int  // per node (in nodes order): positions in edges (1-based) of n.In / n.Out, in list order
+	pts         [][]int  // per edge: x1, y1, x2, y2, ... (1/64), from stage 5 on
 	layerH      []int
 	exact       bool
 }
@@ -80,6 +81,13 @@ func installStageHook() {
 				a = 1
 			}
 			s.edges = append(s.edges, [5]int{refs[ed.From], refs[ed.To], r, len(ed.Points), a})
+			if stage >= 5 {
+				row := []int{}
+				for _, p := range ed.Points {
+					row = append(row, qq(p[0]), qq(p[1]))
+				}
+				s.pts = append(s.pts, row)
+			}
 		}
 		epos := map[*ig.Edge]int{}
 		for k, ed := range g.Edges {
@@ -150,6 +158,13 @@ func (e *enc) stages(c *Case) {
 		}
 		e.s(`],"outl":[`)
 		for k, l := range s.outl {
+			if k > 0 {
+				e.s(",")
+			}
+			e.ints(l)
+		}
+		e.s(`],"pts":[`)
+		for k, l := range s.pts {
 			if k > 0 {
 				e.s(",")
 			}
